@@ -12,7 +12,9 @@
   the whole parse and nothing else is observable.
 -/
 import FP.Basic
+import FP.Model.Dec
 namespace FP.Model.Text
+open FP.Model
 
 abbrev S := List Char
 
@@ -248,5 +250,93 @@ def parseFirst : List (List Elem) → S → Option (Nat × Wall)
     match parseWith l s with
     | some w => some (0, w)
     | none => (parseFirst ls s).map fun p => (p.1 + 1, p.2)
+
+/-! ### Boolean, Decimal and Quantity texts -/
+
+def lowerAscii (c : Char) : Char := if 65 ≤ c.toNat && c.toNat ≤ 90 then Char.ofNat (c.toNat + 32) else c
+
+/-- `system.ParseBoolean` (`strings.ToLower` modelled on ASCII; no non-ASCII letter lower-cases
+    into the letters of the accepted words) -/
+def parseBool (s : S) : Option Bool :=
+  let l := s.map lowerAscii
+  if l == "true".toList || l == "t".toList || l == "yes".toList || l == "y".toList || l == "1".toList || l == "1.0".toList then some true
+  else if l == "false".toList || l == "f".toList || l == "no".toList || l == "n".toList || l == "0".toList || l == "0.0".toList then some false
+  else none
+
+/-- `big.Int.SetString(s, 10)` / `strconv.ParseInt(s, 10, 64)` on at most 18 characters: optional sign, digits -/
+def parseBig (s : S) : Option Int :=
+  let body := match s with | '+' :: r => r | '-' :: r => r | r => r
+  let neg := match s with | '-' :: _ => true | _ => false
+  if body.isEmpty || !body.all isDigit then none else
+  let v : Int := digitsVal body
+  some (if neg then -v else v)
+
+def trimZeros (s : S) : S := (s.reverse.dropWhile (· == '0')).reverse
+
+/-- shopspring `Decimal.String()` -/
+def renderDec (d : Dec) : S :=
+  if 0 ≤ d.exp then renderInt (d.coeff * (10 : Int) ^ d.exp.toNat)
+  else
+    let str := natDigits d.coeff.natAbs
+    let k := (-d.exp).toNat
+    let ip := if k < str.length then str.take (str.length - k) else ['0']
+    let fp := if k < str.length then str.drop (str.length - k) else List.replicate (k - str.length) '0' ++ str
+    let fp' := trimZeros fp
+    let number := if fp'.isEmpty then ip else ip ++ '.' :: fp'
+    if d.coeff < 0 then '-' :: number else number
+
+/-- index of the first character satisfying p -/
+def indexWhere (p : Char → Bool) : S → Option Nat
+  | [] => none
+  | c :: r => if p c then some 0 else (indexWhere p r).map (· + 1)
+
+/-- shopspring `NewFromString` (v1.4.0) -/
+def parseDecGo (s : S) : Option Dec :=
+  -- scientific notation
+  let (mant, e?) : S × Option (Option Int) :=
+    match indexWhere (fun c => c == 'E' || c == 'e') s with
+    | some i => (s.take i, some (parseIntGo (s.drop (i + 1)) 32))
+    | none => (s, none)
+  match e? with
+  | some none => none
+  | _ =>
+    let e : Int := match e? with | some (some x) => x | _ => 0
+    if (mant.filter (· == '.')).length > 1 then none else
+    let (intS, exp) : S × Int :=
+      match indexWhere (· == '.') mant with
+      | none => (mant, e)
+      | some p => (mant.take p ++ mant.drop (p + 1), e - ((mant.drop (p + 1)).length : Int))
+    match parseBig intS with
+    | none => none
+    | some v => if exp < -2147483648 || 2147483647 < exp then none else some ⟨v, exp⟩
+
+def isSpaceRe (c : Char) : Bool := c == ' ' || c == '\t' || c == '\n' || c == '\x0c' || c == '\r'
+def isAlpha (c : Char) : Bool := (65 ≤ c.toNat && c.toNat ≤ 90) || (97 ≤ c.toNat && c.toNat ≤ 122)
+
+/-- the quantity regexp of conversion.go,
+    `^(?P<value>(\+|-)?\d+(\.\d+)?)\s*('(?P<unit>[^']+)'|(?P<time>[a-zA-Z]+))?$`:
+    (value, quoted unit, bare word) -/
+def matchQuantity (s : S) : Option (S × S × S) :=
+  let sign : S := match s with | '+' :: _ => ['+'] | '-' :: _ => ['-'] | _ => []
+  let r0 := s.drop sign.length
+  let ds := r0.takeWhile isDigit
+  if ds.isEmpty then none else
+  let r1 := r0.drop ds.length
+  let frac : S := match r1 with
+    | '.' :: r => let fs := r.takeWhile isDigit; if fs.isEmpty then [] else '.' :: fs
+    | _ => []
+  let value := sign ++ ds ++ frac
+  let r2 := r1.drop frac.length
+  let r3 := r2.dropWhile isSpaceRe
+  match r3 with
+  | [] => some (value, [], [])
+  | '\'' :: r =>
+    let u := r.takeWhile (· != '\'')
+    if u.isEmpty then none else
+    if r.drop u.length == ['\''] then some (value, u, []) else none
+  | _ =>
+    let t := r3.takeWhile isAlpha
+    if t.isEmpty then none else
+    if r3.drop t.length == [] then some (value, [], t) else none
 
 end FP.Model.Text
